@@ -5,6 +5,8 @@ harness/overlay/lib/controller/federation/zz_verif_c20_test.go.
 """
 import collections
 import itertools
+import os
+import subprocess
 
 ID = "C20"
 RULE = ("list requests over a controller with a local backend, 0-3 known remotes and unknown cluster ids; "
@@ -20,7 +22,9 @@ RULE = ("list requests over a controller with a local backend, 0-3 known remotes
         "modified_at values (ties in the merge order); plus a stream where the caller's context ends during a chosen "
         "backend call; plus requests sent through HTTP and the real controller router (op hlist), remotes behind "
         "rpc.Conn -> router too, with uuid lists below and above the 1000-byte POST-override threshold; plus user lists with Login.LoginCluster set (known remote, local, "
-        "unknown, malformed; bypass; failing backend / cache update). Non-trivial = the request involves a cluster other than the local one and is not "
+        "unknown, malformed; bypass; failing backend / cache update); plus requests over 2-4 known clusters where the "
+        "per-cluster goroutines are made to rendezvous between writing their first request and handing it to the "
+        "callback (op slist<N>, instrumented list.go). Non-trivial = the request involves a cluster other than the local one and is not "
         "bypassed; distinct = distinct case line")
 ASSUMPTIONS = [
     "a backend is a function of the forwarded options and the per-backend call index; stub backends ignore context "
@@ -38,6 +42,27 @@ TRUSTED = ["stub backends (zz_verif_c20_test.go) and their mirror scriptBackend 
            "lib/controller/localdb/login_pam.go replaced by a stub so that the package builds without the PAM header"]
 
 OVERLAY_EXTRA = {"lib/controller/localdb/login_pam.go": "harness/overlay_extra/login_pam_stub.go"}
+
+VERIF = os.path.dirname(os.path.dirname(os.path.dirname(os.path.abspath(__file__))))
+
+
+def overlay_generated(repo, workdir):
+    """Instrumented copy of the CURRENT list.go (add-only): verifC20Point("splitListRequest:fn:<k>") before every
+    statement of splitListRequest that calls the merge callback fn. A no-op except for op slist<N>, where the
+    per-cluster goroutines rendezvous there (request for the batch written, not yet handed to fn)."""
+    out = os.path.join(workdir, "list.go")
+    inst = os.path.join(VERIF, "build", "instrument")
+    try:
+        if not os.path.exists(inst):
+            env = dict(os.environ, GOFLAGS="-mod=mod", GOPROXY="off", GOSUMDB="off", GOTOOLCHAIN="local")
+            subprocess.check_call(["go", "build", "-o", inst, "./instrument"], cwd=os.path.join(VERIF, "translator"), env=env)
+        subprocess.check_call([inst, "-in", os.path.join(repo, "lib/controller/federation/list.go"), "-out", out,
+                               "-points", os.path.join(workdir, "c20_points.json"), "-match", "fn",
+                               "-funcs", "splitListRequest", "-hook", "verifC20Point"])
+    except Exception as e:  # the build then fails and is reported as a broken correspondence
+        open(out, "w").write("package federation\n\nfunc init() { instrumenter failed: %s }\n" % str(e).replace("\n", " "))
+    return {"lib/controller/federation/list.go": out}
+
 
 DRIVERS = {"fed": {"kind": "gotest", "pkg": "lib/controller/federation", "test": "TestVerifC20", "min_chunk": 200}}
 
@@ -408,6 +433,8 @@ def describe(cases, impl):
         kinds[c.kind] += 1
         if cs.startswith("hlist "):
             d["through HTTP (rpc.Conn -> router), " + ("long" if len(cs.split(" ")[6]) >= 700 else "short") + " uuid list"] += 1
+        if cs.startswith("slist"):
+            d["per-cluster goroutines rendezvous before their first call (slist)"] += 1
         if c.login is not None:
             d["user list with LoginCluster " + ("(detour)" if c.login != c.local and not c.bypass else "(no detour)")] += 1
         if a.passthrough:
@@ -779,6 +806,30 @@ def _caller_cancel_cases(rng, n):
     return out
 
 
+def _sync_cases(rng, n):
+    """op slist<N>: federated requests over N >= 2 involved known clusters (plus possibly an unknown one); all N
+    per-cluster goroutines have written the request for their first batch before any of them hands it to fn.
+    Anything the goroutines share by mistake at that point shows as a backend asked for another cluster's uuids."""
+    out = []
+    tries = 0
+    while len(out) < n and tries < 50 * n:
+        tries += 1
+        b = _base(rng, "quick")
+        fl = ["uuid~in~" + _operand(rng, b["req"], allow_nonstring=False)]
+        if rng.random() < 0.2 and len(b["req"]) > 2:
+            fl.append("uuid~in~" + _operand(rng, b["req"][1:] + [_uuid(rng, "ggggg", b["kind"])]))
+        r27 = _requested(fl)
+        knownc = [b["local"]] + b["known"]
+        inv_known = [cid for cid in knownc if any(u[:5] == cid for u in r27)]
+        if len(inv_known) < 2:
+            continue
+        opts = _opts(rng)
+        sc = _scripts(rng, b, r27, faults=rng.random() < 0.3)
+        line = _fmt(b["kind"], b["local"], 100, b["remotes"], opts, fl, b["world"], sc)
+        out.append(f"slist{len(inv_known)}" + line[len("list"):])
+    return out
+
+
 def _http_cases(rng, n):
     """op hlist: the request and all remotes go through rpc.Conn -> HTTP -> controller router. Uuid lists short
     (query string) and long (>= 1000 bytes encoded: POST form + X-Http-Method-Override) on the client side and
@@ -918,6 +969,7 @@ def generate(rng, tier):
     cases += _login_cases(rng, 120 if tier == "quick" else 4000)
     cases += _caller_cancel_cases(rng, 60 if tier == "quick" else 2000)
     cases += _http_cases(rng, 80 if tier == "quick" else 1500)
+    cases += _sync_cases(rng, 100 if tier == "quick" else 3000)
     if tier != "quick":
         cases += _exhaustive(rng)
     return cases
@@ -955,5 +1007,7 @@ def neighbours(case, rng):
     out.append(" ".join(g))
     g = list(f)
     g[4] = rng.choice(["-", "bbbbb", "bbbbb,ccccc,ddddd,eeeee,fffff"])
+    if g[0].startswith("slist"):
+        g[0] = "list"  # the rendezvous size is tied to the known clusters
     out.append(" ".join(g))
     return out
